@@ -311,6 +311,46 @@ def check(repo: Repo, run: Run) -> None:
                        "so identifiers are looked up inside it first (`-d jq` on a list document is a TypeError that ends the stream; a document with a key of that name prints the wrong value)", mn.loc(go))
             else:
                 run.ob("C20.S6", "get_options|default-package", True, "the default package is installed only when neither --json-package nor --json-document is given", mn.loc(go))
+    # S8: the type names of --arg denote the CEL classes of the same name (the protobuf wrapper names included): an
+    # alias pointing at a neighbour's class (`uint64_value` -> int) makes `-a n:uint64_value=5` a signed int
+    WANT_ARG = {"int": "IntType", "uint": "UintType", "double": "DoubleType", "bool": "BoolType", "string": "StringType", "bytes": "BytesType",
+                "single_duration": "DurationType", "single_timestamp": "TimestampType", "int64_value": "IntType", "uint64_value": "UintType",
+                "double_value": "DoubleType", "bool_value": "BoolType", "string_value": "StringType", "bytes_value": "BytesType", "number_value": "DoubleType"}
+    entries: dict = {}
+
+    def put(dnode: ast.AST) -> None:
+        if not isinstance(dnode, ast.Dict):
+            return
+        for k, v in zip(dnode.keys, dnode.values):
+            if isinstance(k, ast.Constant) and isinstance(k.value, str):
+                v = strip_cast(v)
+                # an alias `CLI_ARG_TYPES["int"]` denotes what that entry denotes
+                if isinstance(v, ast.Subscript) and dotted(v.value) == "CLI_ARG_TYPES" and isinstance(v.slice, ast.Constant) and v.slice.value in entries:
+                    v = entries[v.slice.value]
+                entries[k.value] = v
+
+    for st in mn.tree.body:
+        if isinstance(st, (ast.Assign, ast.AnnAssign)) and st.value is not None and any(isinstance(t, ast.Name) and t.id == "CLI_ARG_TYPES" for t in (st.targets if isinstance(st, ast.Assign) else [st.target])):
+            put(st.value)
+        elif isinstance(st, ast.Expr) and isinstance(st.value, ast.Call) and dotted(st.value.func) == "CLI_ARG_TYPES.update" and st.value.args:
+            put(st.value.args[0])
+        elif isinstance(st, ast.Assign) and len(st.targets) == 1 and isinstance(st.targets[0], ast.Subscript) and dotted(st.targets[0].value) == "CLI_ARG_TYPES" \
+                and isinstance(st.targets[0].slice, ast.Constant):
+            put(ast.Dict(keys=[st.targets[0].slice], values=[st.value]))
+    if len(entries) < 10:
+        run.inconclusive("C20.S8", "CLI_ARG_TYPES", f"only {len(entries)} entries of the --arg type table could be read")
+    else:
+        n8 = 0
+        for name8, want8 in sorted(WANT_ARG.items()):
+            if name8 not in entries:
+                continue
+            n8 += 1
+            got8 = (dotted(entries[name8]) or ast.unparse(entries[name8])).split(".")[-1]
+            if got8 in ("IntType", "UintType", "DoubleType", "BoolType", "StringType", "BytesType", "DurationType", "TimestampType"):
+                run.ob("C20.S8", f"CLI_ARG_TYPES[{name8}]", got8 == want8, f"--arg type `{name8}` builds {got8}" + ("" if got8 == want8 else f"; the name denotes {want8}: the binding has another CEL type than the command line says"), str(mn.path))
+            else:
+                run.inconclusive("C20.S8", f"CLI_ARG_TYPES[{name8}]", f"`{got8[:40]}` is not a celtypes class")
+        run.floor("C20.S8", n8, 10)
     # S7: a line that is not one whole JSON document is an error for that line (status 3), not a value: the decoder
     # process_json_doc() uses must decode the complete text (rule shared with C15.J3)
     from .c15 import check_decoder
